@@ -141,6 +141,50 @@ type sstep struct {
 	Flag      bool
 	Slow      int
 	Unsub     bool
+	Calls     int  // how often the unsubscribe function is called (calls beyond the first are redundant)
+	Other     bool // redundant calls come from other goroutines, racing with the first call
+	Gap       int
+}
+
+func genUnsub(rng *rand.Rand, stp *sstep) {
+	stp.Calls = 1
+	if r := rng.Intn(5); r >= 3 {
+		stp.Calls = r - 1 // 2 or 3
+	}
+	stp.Other = rng.Intn(2) == 0
+	stp.Gap = rng.Intn(10)
+}
+
+var redundantUnsubs atomic.Int64
+
+// unsubscribeN calls an unsubscribe function `calls` times; ret receives the tick at which the first call returned
+// (from then on no callback may start). Redundant calls follow sequentially or race from other goroutines.
+func unsubscribeN(unsub func(), calls int, other bool, gap int, ret *atomic.Uint64, pn *panics) {
+	var xwg sync.WaitGroup
+	if other {
+		for c := 1; c < calls; c++ {
+			xwg.Add(1)
+			go func() {
+				defer xwg.Done()
+				defer pn.guard("redundant unsubscribe")
+				yield(gap)
+				unsub()
+				ret.CompareAndSwap(0, tick())
+			}()
+		}
+	}
+	unsub()
+	ret.CompareAndSwap(0, tick())
+	if !other {
+		for c := 1; c < calls; c++ {
+			yield(gap)
+			unsub()
+		}
+	}
+	xwg.Wait()
+	if calls > 1 {
+		redundantUnsubs.Add(int64(calls - 1))
+	}
 }
 
 func runVar(rng *rand.Rand) (viols []viol, st runStats) {
@@ -176,10 +220,13 @@ func runVar(rng *rand.Rand) (viols []viol, st runStats) {
 			if slowP > 0 && rng.Intn(3) < slowP {
 				slow = 1 + rng.Intn(6)
 			}
-			splans[s] = append(splans[s], sstep{Pre: rng.Intn(30), Hold: rng.Intn(40), Flag: rng.Intn(2) == 0, Slow: slow, Unsub: k < cyc-1 || rng.Intn(2) == 0})
+			stp := sstep{Pre: rng.Intn(30), Hold: rng.Intn(40), Flag: rng.Intn(2) == 0, Slow: slow, Unsub: k < cyc-1 || rng.Intn(2) == 0}
+			genUnsub(rng, &stp)
+			splans[s] = append(splans[s], stp)
 		}
 	}
 
+	tailWrites := 1 + rng.Intn(2)
 	v := reactive.NewVariable[int]()
 	var ops []vop
 	if initNZ {
@@ -249,8 +296,7 @@ func runVar(rng *rand.Rand) (viols []viol, st runStats) {
 				if stp.Unsub {
 					sb.Unsub = true
 					sb.UnsubCall = tick()
-					unsub()
-					sb.unsubRet.Store(tick())
+					unsubscribeN(unsub, stp.Calls, stp.Other, stp.Gap, &sb.unsubRet, &pn)
 				}
 				progress.Add(1)
 			}
@@ -258,6 +304,22 @@ func runVar(rng *rand.Rand) (viols []viol, st runStats) {
 	}
 	close(start)
 	wg.Wait()
+	// tail: further writes after all subscribe/unsubscribe activity, so every remaining subscription has later changes to see
+	func() {
+		defer pn.guard("tail writer")
+		var tl []vop
+		for k := 0; k < tailWrites; k++ {
+			val := (W+1)*100000 + k + 1
+			o := vop{Kind: "set", W: W, New: val}
+			o.Call = tick()
+			o.Prev = v.Set(val)
+			o.Ret = tick()
+			o.Changed = o.Prev != o.New
+			tl = append(tl, o)
+		}
+		wlogs = append(wlogs, tl)
+	}()
+	st.add("redundant_unsubscribe_calls", int(redundantUnsubs.Swap(0)))
 	final := v.Get()
 
 	if len(pn.rec) > 0 {
@@ -546,6 +608,10 @@ func runSet(rng *rand.Rand) (viols []viol, st runStats) {
 			plans[w] = append(plans[w], stp)
 		}
 	}
+	tailSteps := make([]setStep, 1+rng.Intn(2))
+	for i := range tailSteps {
+		tailSteps[i] = setStep{Kind: "toggle", A: relem()}
+	}
 	splans := make([][]sstep, S)
 	for s := range splans {
 		cyc := 1 + rng.Intn(4)
@@ -554,7 +620,9 @@ func runSet(rng *rand.Rand) (viols []viol, st runStats) {
 			if slowP > 0 && rng.Intn(3) < slowP {
 				slow = 1 + rng.Intn(6)
 			}
-			splans[s] = append(splans[s], sstep{Pre: rng.Intn(30), Hold: rng.Intn(60), Flag: rng.Intn(2) == 0, Slow: slow, Unsub: k < cyc-1 || rng.Intn(2) == 0})
+			stp := sstep{Pre: rng.Intn(30), Hold: rng.Intn(60), Flag: rng.Intn(2) == 0, Slow: slow, Unsub: k < cyc-1 || rng.Intn(2) == 0}
+			genUnsub(rng, &stp)
+			splans[s] = append(splans[s], stp)
 		}
 	}
 
@@ -570,7 +638,45 @@ func runSet(rng *rand.Rand) (viols []viol, st runStats) {
 	var pn panics
 	start := make(chan struct{})
 	var wg sync.WaitGroup
-	wlogs := make([][]sop, W)
+	wlogs := make([][]sop, W+1) // last: tail writes by the main goroutine
+	exec := func(w int, g uint64, stp setStep) sop {
+		o := sop{Kind: stp.Kind, W: w, G: g, A: stp.A, B: stp.B, Full: true}
+		o.Call = tick()
+		switch stp.Kind {
+		case "add":
+			if set.Add(bits.TrailingZeros32(stp.A)) {
+				o.RetAdd = stp.A
+			}
+		case "delete":
+			if set.Delete(bits.TrailingZeros32(stp.A)) {
+				o.RetDel = stp.A
+			}
+		case "addall":
+			o.RetAdd = maskOf(set.AddAll(setOf(stp.A)))
+		case "deleteall":
+			o.RetDel = maskOf(set.DeleteAll(setOf(stp.A)))
+		case "apply", "applyov":
+			m := set.Apply(ds.NewSetMutations[int]().WithAddedElements(setOf(stp.A)).WithDeletedElements(setOf(stp.B)))
+			o.RetAdd, o.RetDel = maskOf(m.AddedElements()), maskOf(m.DeletedElements())
+		case "toggle":
+			e := bits.TrailingZeros32(stp.A)
+			m := set.Compute(func(cur ds.ReadableSet[int]) ds.SetMutations[int] {
+				if cur.Has(e) {
+					return ds.NewSetMutations[int]().WithDeletedElements(ds.NewSet(e))
+				}
+				return ds.NewSetMutations[int](e)
+			})
+			o.RetAdd, o.RetDel = maskOf(m.AddedElements()), maskOf(m.DeletedElements())
+		case "cempty":
+			m := set.Compute(func(cur ds.ReadableSet[int]) ds.SetMutations[int] { return ds.NewSetMutations[int]() })
+			o.RetAdd, o.RetDel = maskOf(m.AddedElements()), maskOf(m.DeletedElements())
+		case "replace":
+			o.RetDel = maskOf(set.Replace(setOf(stp.A)))
+			o.Full = false
+		}
+		o.Ret = tick()
+		return o
+	}
 	for w := 0; w < W; w++ {
 		wg.Add(1)
 		go func(w int) {
@@ -580,42 +686,7 @@ func runSet(rng *rand.Rand) (viols []viol, st runStats) {
 			<-start
 			for _, stp := range plans[w] {
 				yield(stp.Yield)
-				o := sop{Kind: stp.Kind, W: w, G: g, A: stp.A, B: stp.B, Full: true}
-				o.Call = tick()
-				switch stp.Kind {
-				case "add":
-					if set.Add(bits.TrailingZeros32(stp.A)) {
-						o.RetAdd = stp.A
-					}
-				case "delete":
-					if set.Delete(bits.TrailingZeros32(stp.A)) {
-						o.RetDel = stp.A
-					}
-				case "addall":
-					o.RetAdd = maskOf(set.AddAll(setOf(stp.A)))
-				case "deleteall":
-					o.RetDel = maskOf(set.DeleteAll(setOf(stp.A)))
-				case "apply", "applyov":
-					m := set.Apply(ds.NewSetMutations[int]().WithAddedElements(setOf(stp.A)).WithDeletedElements(setOf(stp.B)))
-					o.RetAdd, o.RetDel = maskOf(m.AddedElements()), maskOf(m.DeletedElements())
-				case "toggle":
-					e := bits.TrailingZeros32(stp.A)
-					m := set.Compute(func(cur ds.ReadableSet[int]) ds.SetMutations[int] {
-						if cur.Has(e) {
-							return ds.NewSetMutations[int]().WithDeletedElements(ds.NewSet(e))
-						}
-						return ds.NewSetMutations[int](e)
-					})
-					o.RetAdd, o.RetDel = maskOf(m.AddedElements()), maskOf(m.DeletedElements())
-				case "cempty":
-					m := set.Compute(func(cur ds.ReadableSet[int]) ds.SetMutations[int] { return ds.NewSetMutations[int]() })
-					o.RetAdd, o.RetDel = maskOf(m.AddedElements()), maskOf(m.DeletedElements())
-				case "replace":
-					o.RetDel = maskOf(set.Replace(setOf(stp.A)))
-					o.Full = false
-				}
-				o.Ret = tick()
-				wlogs[w] = append(wlogs[w], o)
+				wlogs[w] = append(wlogs[w], exec(w, g, stp))
 				progress.Add(1)
 			}
 		}(w)
@@ -639,8 +710,7 @@ func runSet(rng *rand.Rand) (viols []viol, st runStats) {
 				if stp.Unsub {
 					sb.Unsub = true
 					sb.UnsubCall = tick()
-					unsub()
-					sb.unsubRet.Store(tick())
+					unsubscribeN(unsub, stp.Calls, stp.Other, stp.Gap, &sb.unsubRet, &pn)
 				}
 				progress.Add(1)
 			}
@@ -648,6 +718,15 @@ func runSet(rng *rand.Rand) (viols []viol, st runStats) {
 	}
 	close(start)
 	wg.Wait()
+	// tail: further effective writes after all subscribe/unsubscribe activity
+	func() {
+		defer pn.guard("tail writer")
+		g := gdump.GoID()
+		for _, stp := range tailSteps {
+			wlogs[W] = append(wlogs[W], exec(W, g, stp))
+		}
+	}()
+	st.add("redundant_unsubscribe_calls", int(redundantUnsubs.Swap(0)))
 	final := maskOf(set)
 	if len(pn.rec) > 0 {
 		viols = append(viols, viol{"set/panic", "panic inside a reactive.Set operation: " + pn.rec[0].Value, pn.rec})
@@ -882,22 +961,29 @@ func runEvent(rng *rand.Rand) (viols []viol, st runStats) {
 	}
 	trigs := make([]trig, T)
 	var pn panics
-	reg := func(h *hsub, unsubAfter int) {
+	reg := func(h *hsub, unsubAfter int, u sstep) {
 		h.SubCall = tick()
-		u := e.OnTrigger(h.handler)
+		un := e.OnTrigger(h.handler)
 		h.SubRet = tick()
 		if unsubAfter >= 0 {
 			yield(unsubAfter)
 			h.Unsub = true
 			h.UnsubCall = tick()
-			u()
-			h.unsubRet.Store(tick())
+			unsubscribeN(un, u.Calls, u.Other, u.Gap, &h.unsubRet, &pn)
 		}
 	}
 	for i := 0; i < nBefore; i++ {
 		h := &hsub{ID: len(hs), Phase: "before"}
 		hs = append(hs, h)
-		reg(h, -1)
+		reg(h, -1, sstep{})
+	}
+	// handlers that come and go (possibly unsubscribing redundantly) before anything is triggered
+	for i, n := 0, rng.Intn(3); i < n; i++ {
+		h := &hsub{ID: len(hs), Phase: "before"}
+		hs = append(hs, h)
+		var u sstep
+		genUnsub(rng, &u)
+		reg(h, 0, u)
 	}
 	start := make(chan struct{})
 	var wg sync.WaitGroup
@@ -927,13 +1013,15 @@ func runEvent(rng *rand.Rand) (viols []viol, st runStats) {
 		if rng.Intn(3) == 0 {
 			ua = rng.Intn(40)
 		}
+		var u sstep
+		genUnsub(rng, &u)
 		wg.Add(1)
 		go func() {
 			defer wg.Done()
 			defer pn.guard("handler registration")
 			<-start
 			yield(y)
-			reg(h, ua)
+			reg(h, ua, u)
 			progress.Add(1)
 		}()
 	}
@@ -942,8 +1030,9 @@ func runEvent(rng *rand.Rand) (viols []viol, st runStats) {
 	for i := 0; i < nAfter; i++ {
 		h := &hsub{ID: len(hs), Phase: "after"}
 		hs = append(hs, h)
-		reg(h, -1)
+		reg(h, -1, sstep{})
 	}
+	st.add("redundant_unsubscribe_calls", int(redundantUnsubs.Swap(0)))
 	if len(pn.rec) > 0 {
 		viols = append(viols, viol{"event/panic", "panic inside a reactive.Event operation: " + pn.rec[0].Value, pn.rec})
 		return
@@ -1086,7 +1175,7 @@ func run(c *vf.Ctx) {
 		}
 		return
 	}
-	c.SetRule("one evaluation = one run: a fresh reactive Variable / Set / Event driven by 1-4 seeded writer goroutines (Set, Compute, DefaultTo; Add, Delete, AddAll, DeleteAll, Apply, Compute, Replace; Trigger) racing with 1-6 goroutines that subscribe and unsubscribe at seeded points (with/without triggerWithInitialZeroValue, slow callbacks), checked after join against the writers' own chain / returned mutations / exact single-writer model; runs are distinct by construction (run seed); distinct_nontrivial counts runs in which at least one OnUpdate/OnTrigger call overlapped (by logical ticks) a value-changing write")
+	c.SetRule("one evaluation = one run: a fresh reactive Variable / Set / Event driven by 1-4 seeded writer goroutines (Set, Compute, DefaultTo; Add, Delete, AddAll, DeleteAll, Apply, Compute, Replace; Trigger) racing with 1-6 goroutines that subscribe and unsubscribe at seeded points (with/without triggerWithInitialZeroValue, slow callbacks; unsubscribe functions are called 1-3 times, redundant calls sequentially or from other goroutines), followed by tail writes after all subscription activity, checked after join against the writers' own chain / returned mutations / exact single-writer model; runs are distinct by construction (run seed); distinct_nontrivial counts runs in which at least one OnUpdate/OnTrigger call overlapped (by logical ticks) a value-changing write")
 	total := c.Pick(20000, 600000)
 	share := map[string]int{"var": total * 45 / 100, "set": total * 45 / 100, "event": total * 10 / 100}
 	chunk := c.Pick(500, 6000)
@@ -1108,6 +1197,7 @@ func run(c *vf.Ctx) {
 	c.Require("overlapping_pairs", c.Pick(200, 5000))
 	c.Require("handoff_windows", c.Pick(20, 500))
 	c.Require("runs_race_build", total/5)
+	c.Require("redundant_unsubscribe_calls", total/2)
 	c.Require("nontrivial", c.Pick(300, 10000))
 }
 
